@@ -135,7 +135,7 @@ class World:
                 raise ValueError(dist)
             self.faults["rng.draw"] += 1
         elif kind == "reseed":
-            np.random.seed(int(rec["seed"]))
+            np.random.seed(int(rec["seed"]) % 2 ** 32)
             self.faults["rng.reseed"] += 1
         elif kind == "getstate":
             self.states[rec["slot"]] = np.random.get_state()
